@@ -8,7 +8,10 @@ import (
 	"bytes"
 	"fmt"
 	"os"
+	"os/exec"
 	"runtime"
+	"strconv"
+	"strings"
 	"time"
 
 	fr "github.com/brocaar/lorawan/applayer/fragmentation"
@@ -374,7 +377,83 @@ func identityData(m int) ([]byte, int) {
 	return data, size
 }
 
+// probeChild runs Encode(make([]byte, n), size, red) in this (child) process and prints only the
+// kind of result: sizes near the allocation limit end in a fatal "out of memory" that recover()
+// cannot catch, so they are tried where they cannot take the harness down.
+func probeChild(args []string) {
+	n, _ := strconv.Atoi(args[0])
+	size, _ := strconv.ParseInt(args[1], 10, 64)
+	red, _ := strconv.Atoi(args[2])
+	defer func() {
+		if r := recover(); r != nil {
+			fmt.Printf("PANIC %v\n", r)
+			os.Exit(0)
+		}
+	}()
+	var data []byte
+	if n >= 0 {
+		data = make([]byte, n)
+	}
+	out, err := fr.Encode(data, int(size), red)
+	if err != nil {
+		fmt.Println("ERR " + err.Error())
+		return
+	}
+	fmt.Printf("OK rows=%d\n", len(out))
+}
+
+// hugeCase: a block of n zero bytes (n = -1: nil) with a fragment size no caller could allocate.
+// Since the empty block is refused every such call must end in an error.
+func hugeCase(s *cases.Set, n int, size int64, red int) {
+	cmd := exec.Command(os.Args[0], "-probe", strconv.Itoa(n), strconv.FormatInt(size, 10), strconv.Itoa(red))
+	done := make(chan struct{})
+	var out []byte
+	go func() { out, _ = cmd.CombinedOutput(); close(done) }()
+	select {
+	case <-done:
+	case <-time.After(20 * time.Second):
+		if cmd.Process != nil {
+			cmd.Process.Kill()
+		}
+		<-done
+		out = append(out, []byte("\n(killed after 20 s)")...)
+	}
+	text := strings.TrimSpace(string(out))
+	first := strings.SplitN(text, "\n", 2)[0]
+	ln := n
+	if ln < 0 {
+		ln = 0
+	}
+	key := fmt.Sprintf("encode:len=%d:size=%d:red=%d:data=zeros(%d)", ln, size, red, n)
+	rp := map[string]interface{}{"api": "fragmentation.Encode(make([]byte, n), fragmentSize, redundancy) (n = -1: nil), run in a child process", "n": n, "fragmentSize": size, "redundancy": red, "child_output": clipText(text)}
+	obs := cq.Err
+	switch {
+	case strings.HasPrefix(first, "ERR"):
+	case strings.HasPrefix(first, "PANIC"):
+		obs = cq.Panic
+	case strings.HasPrefix(first, "OK"):
+		s.Fail(cases.GoFail{Key: "encode-unallocatable-size-accepted:" + key, What: "fragmentation.Encode returned fragments (" + first + ") for a block of " + fmt.Sprint(ln) + " bytes and a fragment size of " + fmt.Sprint(size) + ": an error was required", Replay: rp})
+		return
+	default: // fatal error: out of memory, killed, ...
+		obs = cq.Panic
+		rp["note"] = "the child process died (not a recoverable panic)"
+	}
+	s.Add(cases.Case{Term: fmt.Sprintf("CEncode %s %s %s %s", cq.Bytes(make([]byte, ln)), cq.Z(size), cq.Z(int64(red)), obs),
+		Key: key, Kind: "unallocatable-size", Nontrivial: true, Replay: rp})
+}
+
+func clipText(t string) string {
+	if len(t) > 600 {
+		return t[:600] + "…"
+	}
+	return t
+}
+
 func main() {
+	if len(os.Args) >= 5 && os.Args[1] == "-probe" {
+		probeChild(os.Args[2:])
+		return
+	}
 	dir, seed, thorough := cases.Args()
 	r := cq.NewRNG(seed)
 	s := cases.New("C19", dir, "LW.Corr.C19",
@@ -394,6 +473,19 @@ func main() {
 	for _, c := range [][3]int{{4, 3, 0}, {4, 3, 2}, {1, 2, 1}, {10, 4, 3}, {7, 64, 0}, {300, 299, 1}} {
 		data := r.Bytes(c[0])
 		encodeCase(s, data, c[1], c[2], "invalid-size", hexShort(data))
+	}
+	// empty block (refused since the fix of audit C19 #1) and small blocks with fragment sizes
+	// that cannot be allocated: an error, never a panic / a dead process
+	for _, size := range []int64{1<<63 - 1, 1<<63 - 2, 1 << 62, 1<<48 + 1, 1 << 48, 1 << 47, 1 << 40, 1 << 33, 1 << 31} {
+		for _, red := range []int{0, 1, 3} {
+			hugeCase(s, 0, size, red)
+		}
+		hugeCase(s, -1, size, 1)
+		hugeCase(s, 4, size, 1) // non-dividing
+	}
+	for _, sz := range []int{1, 2, 64, 255, 4096} {
+		encodeCase(s, nil, sz, 0, "edge", "nil")
+		encodeCase(s, []byte{}, sz, 1, "edge", "empty")
 	}
 	// empty data, negative redundancy
 	encodeCase(s, nil, 3, 2, "edge", "empty")
